@@ -199,6 +199,13 @@ def explore(fn, on_path=None):
                     import re as _re
                     if any(_re.search(r'\b%s\b' % _re.escape(n), msg) for n in proxies.proxy_class_names()):
                         raise EngineEscape('%s involving a proxy: %s' % (type(e).__name__, msg))
+                    import sys as _sys
+                    own = set()
+                    for mn, mod in list(_sys.modules.items()):
+                        if mn.split('.')[0] in ('contracts', 'pysym', 'spec') and mod is not None:
+                            own.update(k for k, v in vars(mod).items() if isinstance(v, type) and getattr(v, '__module__', '') == mn)
+                    if any(_re.search(r'\b%s\b' % _re.escape(n), msg) for n in own):
+                        raise EngineEscape('%s involving a stand-in class of the checker: %s' % (type(e).__name__, msg))
                 out = ('exc', e)
         finally:
             for i in range(len(prefix), len(p.taken)):
